@@ -1,4 +1,6 @@
 import HkModel.Proofs.InvStep
+import HkModel.Proofs.C02Model
+import HkModel.Proofs.Trimmed
 import HkModel.Proofs.C03Model
 import HkModel.Proofs.C04Model
 import HkModel.Proofs.C05Model
@@ -23,7 +25,8 @@ structure TStep where
 
 /-- Operations the implementation's API can express: `LeaseBatchStore` has no batch `extend`
     (the model's `leaseBatch` is generic in the lease kind only for uniformity). -/
-def OpWF (_c : Cfg) (op : Op) : Prop := ∀ d ls, op ≠ .leaseBatch (.extend d) ls
+def OpWF (_c : Cfg) (op : Op) : Prop :=
+  (∀ d ls, op ≠ .leaseBatch (.extend d) ls) ∧ (∀ f, op ≠ .byFilter .deleteDead f) ∧ (∀ f, op ≠ .byFilter .requeueDead f)
 
 /-- clock values never go backwards -/
 def Monotone : Int → List TStep → Prop
@@ -40,19 +43,20 @@ def run (c : Cfg) : Q → Hist → List TStep → List (Hist × Rec)
       let rec_ := modelRec c s.now q s.op r q'
       (h, rec_) :: run c q' (C03.advance h rec_) rest
 
-/-- **Every record of every run satisfies C03, C04, C05, C12 and C14**, from any state satisfying the invariant. -/
+/-- **Every record of every run satisfies C02, C03, C04, C05, C12 and C14**, from any state satisfying the invariant
+    (`ChWF`: the implementation's generated lease ids carry no surrounding whitespace). -/
 theorem run_ok (c : Cfg) (hsweep : 0 ≤ c.sweep) :
     ∀ (tr : List TStep) (q : Q) (h : Hist) (t0 : Int),
-      Inv q → q.lastSweep ≤ t0 → 0 ≤ t0 → Monotone t0 tr → (∀ s ∈ tr, OpWF c s.op) →
+      Inv q → Trimmed q → q.lastSweep ≤ t0 → 0 ≤ t0 → Monotone t0 tr → (∀ s ∈ tr, OpWF c s.op ∧ ChWF s.ch) →
       (∀ l ∈ h.issued, l ∈ q.issued) →
       ∀ hr ∈ run c q h tr,
-        C03.stepOK hr.1 hr.2 = true ∧ C04.stepOK' hr.2 = true ∧ C05.stepOK' hr.2 = true ∧
+        C02.stepOK' hr.2 = true ∧ C03.stepOK hr.1 hr.2 = true ∧ C04.stepOK' hr.2 = true ∧ C05.stepOK' hr.2 = true ∧
         C12.stepOK hr.2 = true ∧ C14.stepOK hr.2 = true := by
   intro tr
   induction tr with
-  | nil => intro q h t0 _ _ _ _ _ _ hr hmem; simp [run] at hmem
+  | nil => intro q h t0 _ _ _ _ _ _ _ hr hmem; simp [run] at hmem
   | cons s rest ih =>
-    intro q h t0 hinv hclock hpos hmono hwf hh hr hmem
+    intro q h t0 hinv htrim hclock hpos hmono hwf hh hr hmem
     simp only [run] at hmem
     cases hstep : step c s.now q s.op s.ch with
     | none => simp [hstep] at hmem
@@ -60,16 +64,21 @@ theorem run_ok (c : Cfg) (hsweep : 0 ≤ c.sweep) :
       obtain ⟨q', r⟩ := p
       simp only [hstep, List.mem_cons] at hmem
       have hs : t0 ≤ s.now := hmono.1
-      have hwfs := hwf s (by simp)
+      have hwfs := (hwf s (by simp)).1
+      have hchs := (hwf s (by simp)).2
+      have hext : ∀ d ls, s.op = .leaseBatch (.extend d) ls → 0 ≤ d := fun d ls h => absurd h (hwfs.1 d ls)
       have h03 := P03.C03_model c s.now q q' s.op s.ch r h hinv hh hstep
       rcases hmem with rfl | hmem
-      · refine ⟨h03.1, ?_, ?_, ?_, ?_⟩
-        · exact C04_model' c s.now q q' s.op s.ch r hinv (fun d ls h => absurd h (hwfs d ls)) hstep
+      · refine ⟨?_, h03.1, ?_, ?_, ?_, ?_⟩
+        · exact C02_model' c s.now q q' s.op s.ch r hinv (fun _ m hm _ => htrim m hm) hext
+            (fun f h => absurd h (hwfs.2.1 f)) hstep
+        · exact C04_model' c s.now q q' s.op s.ch r hinv (fun d ls h => absurd h (hwfs.1 d ls)) hstep
         · exact C05_model' c s.now q q' s.op s.ch r hinv (by omega) hsweep hstep
         · exact P12.C12_model c s.now q q' s.op s.ch r hinv hstep
         · exact P14.C14_model c s.now q q' s.op s.ch r hinv hstep
-      · have hi := inv_step c s.now q q' s.op s.ch r hinv (by omega) (by omega) (fun d ls h => absurd h (hwfs d ls)) hstep
-        exact ih q' _ s.now hi.1 hi.2 (by omega) hmono.2 (fun x hx => hwf x (by simp [hx])) h03.2 hr hmem
+      · have hi := inv_step c s.now q q' s.op s.ch r hinv (by omega) (by omega) hext hstep
+        have ht' := trimmed_step c s.now q q' s.op s.ch r htrim hchs hstep
+        exact ih q' _ s.now hi.1 ht' hi.2 (by omega) hmono.2 (fun x hx => hwf x (by simp [hx])) h03.2 hr hmem
 
 /-- the invariant holds in every state reachable from the empty store -/
 theorem inv_reachable (c : Cfg) :
@@ -95,7 +104,7 @@ theorem inv_reachable (c : Cfg) :
       obtain ⟨q1, r⟩ := p
       simp only [hstep, Option.map_some] at h
       have hi := inv_step c s.now q q1 s.op s.ch r hinv (by have := hmono.1; omega) (by have := hmono.1; omega)
-        (fun d ls h => absurd h (hwf s (by simp) d ls)) hstep
+        (fun d ls h => absurd h ((hwf s (by simp)).1 d ls)) hstep
       exact ih q1 s.now hi.1 hi.2 (by have := hmono.1; omega) hmono.2 (fun x hx => hwf x (by simp [hx])) q' h
 
 /-! ### non-vacuity: a concrete non-trivial run whose hypotheses hold -/
@@ -110,9 +119,11 @@ def demoTrace : List TStep :=
 
 example : (run { maxDepth := 2 } {} {} demoTrace).length = 7 := by decide
 example : Monotone 0 demoTrace := by simp [Monotone, demoTrace]
-example : ∀ s ∈ demoTrace, OpWF { maxDepth := 2 } s.op := by
-  intro s hs d ls
+example : ∀ s ∈ demoTrace, OpWF { maxDepth := 2 } s.op ∧ ChWF s.ch := by
+  intro s hs
   simp only [demoTrace, List.mem_cons, List.mem_nil_iff, or_false] at hs
-  rcases hs with rfl | rfl | rfl | rfl | rfl | rfl | rfl <;> simp
+  rcases hs with rfl | rfl | rfl | rfl | rfl | rfl | rfl <;>
+    refine ⟨⟨by intro d ls; simp, by intro f; simp, by intro f; simp⟩, ?_⟩ <;>
+    intro p hp <;> simp at hp <;> (try rcases hp with rfl | rfl) <;> (try subst hp) <;> decide
 
 end Hk
